@@ -23,5 +23,5 @@ CONSTANTS
   WithNoops = FALSE
 INIT MCInit
 NEXT MCNext
-INVARIANTS VerdictOk Refines NextAboveAssigned BatchAtomic FilesBound BytesTrack BufInv ZerosAhead
+INVARIANTS VerdictOk Refines NextAboveAssigned BatchAtomic FilesBound FilesBoundOpen BytesTrack BufInv ZerosAhead
 CHECK_DEADLOCK FALSE
